@@ -406,11 +406,11 @@ theorem instStages_empty (whale : Option Nat) : ∀ (l : List Stage) (k : Nat) (
   | nil => intro k cnt num h; exact ⟨cnt, rfl, h⟩
   | cons x xs ih =>
     intro k cnt num h
-    obtain ⟨cnt', h1, h2⟩ := ih (k + 1) (fun j => if j = k then 0 else cnt j) (num + 0)
-      (fun j => by simp only []; split <;> first | rfl | exact h j)
+    obtain ⟨cnt', h1, h2⟩ := ih (k + 1) (fun j => if j = k then 0 else cnt j) num
+      (fun j => by by_cases hj : j = k <;> simp [hj, h j])
     refine ⟨cnt', ?_, h2⟩
-    simp only [List.length_cons, List.map_cons, Tiered.instStages, Tiered.instLoop]
-    rw [h1]
+    simp only [List.length_cons, List.map_cons, Tiered.instStages, Tiered.instLoop, Nat.add_zero]
+    exact h1
 
 theorem normStage_merkle (l : List Stage) : l.map (Tiered.normStage .merkle) = l := by
   induction l with
@@ -428,54 +428,158 @@ theorem sum_len_empty (l : List Stage) : ((l.map fun _ => ([] : List (Addr × Na
   | nil => rfl
   | cons x xs ih => simp only [List.map_cons, List.sum_cons, ih]; rfl
 
-/-- aspect `inst` of a list kind with empty member lists, when every gate passes -/
-theorem t_inst_list_ok {v : Tiered.Variant} (hv : v ≠ .merkle) {now : Nat} {funds : List Coin} {limit : Nat}
-    {whale : Option Nat} {admins : List Addr} {mu : Bool} {stages : List Stage} (W : Tiered.World) (a : Addr)
+theorem map_empty_norm (v : Tiered.Variant) (stages : List Stage) :
+    ((stages.map (Tiered.normStage v)).map fun _ => ([] : List (Addr × Nat))) = stages.map fun _ => [] := by
+  rw [List.map_map]; apply List.map_congr_left; intros; rfl
+
+/-- aspect `instantiate` of a list kind with empty member lists, when every gate passes (`fee` abstract) -/
+theorem t_instantiate_list_ok {v : Tiered.Variant} (hv : v ≠ .merkle) {now : Nat} {funds : List Coin} {limit fee : Nat}
+    {whale : Option Nat} {admins : List Addr} {mu : Bool} {stages : List Stage} (roots : List Nat) (uriBad : Bool)
     (h1 : (limit == 0 || decide (limit > Tiered.maxMembers v)) = false)
     (h2 : Tiered.validateStages v now (stages.map (Tiered.normStage v)) = true)
-    (h3 : mustPay funds NATIVE = .ok (Tiered.thousands limit * Tiered.pricePer1000 v))
+    (h3 : mustPay funds NATIVE = .ok fee) (hfee : fee = Tiered.thousands limit * Tiered.pricePer1000 v)
     (h4 : (match (if v == .flex then whale else none) with | some w => decide (w > limit) | none => true) = true)
     (h5 : admins.all Tiered.validAddr = true) :
     ∃ cnt, (∀ j, cnt j = 0) ∧
-      Tiered.step v W (.inst now a funds limit whale admins mu stages (stages.map fun _ => []) [] false) =
-        .ok (some { stages := stages.map (Tiered.normStage v), members := [], counts := cnt, num := 0, limit := limit,
-                    whale := (if v == .flex then whale else none), roots := [], admins := admins, mutable := mu }) := by
+      Tiered.instantiate v now funds limit whale admins mu stages (stages.map fun _ => []) roots uriBad =
+        .ok { stages := stages.map (Tiered.normStage v), members := [], counts := cnt, num := 0, limit := limit,
+              whale := (if v == .flex then whale else none), roots := [], admins := admins, mutable := mu } := by
   obtain ⟨cnt, hc1, hc2⟩ := instStages_empty (if v == .flex then whale else none) (stages.map (Tiered.normStage v)) 0
     (fun _ => 0) 0 (fun _ => rfl)
+  rw [List.length_map, map_empty_norm] at hc1
   refine ⟨cnt, hc2, ?_⟩
-  simp only [List.length_map, List.map_map] at hc1
-  have hc1' : Tiered.instStages (if (v == Tiered.Variant.flex) = true then whale else none) stages.length 0
-      (stages.map fun _ => []) [] (fun _ => 0) 0 = .ok ([], cnt, 0) := by
-    have : (List.map ((fun _ => ([] : List (Addr × Nat))) ∘ Tiered.normStage v) stages) = stages.map fun _ => [] := by
-      apply List.map_congr_left; intros; rfl
-    rw [this] at hc1; exact hc1
+  have hfee' : (fee == Tiered.thousands limit * Tiered.pricePer1000 v) = true := by rw [hfee]; exact beq_self_eq_true _
   cases v with
   | merkle => exact absurd rfl hv
   | plain =>
-    simp only [Tiered.step, Tiered.instantiate, Tiered.ofBool, h1, h2, h3, h5, bind, Except.bind, pure, Except.pure,
-      Except.map, Bool.not_false, if_true, List.length_map, beq_self_eq_true, map_sortDedup_empty, sum_len_empty,
-      Nat.not_lt_zero, decide_false, Bool.not_false]
-    simp only [show (Tiered.Variant.plain == Tiered.Variant.flex) = false from rfl, Bool.false_eq_true, if_false] at hc1' h4 ⊢
-    simp only [show (Tiered.Variant.plain == Tiered.Variant.plain) = true from rfl, if_true, map_sortDedup_empty,
-      sum_len_empty, Nat.not_lt_zero, decide_false, Bool.not_false, hc1']
+    have e1 : (Tiered.Variant.plain == Tiered.Variant.flex) = false := rfl
+    have e2 : (Tiered.Variant.plain == Tiered.Variant.plain) = true := rfl
+    simp only [e1, Bool.false_eq_true, if_false] at hc1 h4 ⊢
+    simp only [Tiered.instantiate]
+    simp only [↓Tiered.ofBool_bind_ok, Tiered.bind_ok, Tiered.pure_ok, e1, e2, if_true, Bool.false_eq_true, if_false]
+    refine ⟨by simpa using h1, h2, by simp, fee, h3, hfee', by simp, h5, ?_, ([], cnt, 0), ?_, ?_⟩
+    · rw [map_sortDedup_empty, sum_len_empty]; simp
+    · rw [map_sortDedup_empty, List.length_map]; exact hc1
+    · rw [map_sortDedup_empty, sum_len_empty]
   | flex =>
-    simp only [show (Tiered.Variant.flex == Tiered.Variant.flex) = true from rfl, if_true] at hc1' h4
-    simp only [Tiered.step, Tiered.instantiate, Tiered.ofBool, h1, h2, h3, h5, bind, Except.bind, pure, Except.pure,
-      Except.map, Bool.not_false, if_true, List.length_map, beq_self_eq_true,
-      show (Tiered.Variant.flex == Tiered.Variant.flex) = true from rfl,
-      show (Tiered.Variant.flex == Tiered.Variant.plain) = false from rfl, Bool.false_eq_true, if_false, h4,
-      sum_len_empty, Nat.not_lt_zero, decide_false, hc1']
+    have e1 : (Tiered.Variant.flex == Tiered.Variant.flex) = true := rfl
+    have e2 : (Tiered.Variant.flex == Tiered.Variant.plain) = false := rfl
+    simp only [e1, if_true] at hc1 h4 ⊢
+    simp only [Tiered.instantiate]
+    simp only [↓Tiered.ofBool_bind_ok, Tiered.bind_ok, Tiered.pure_ok, e1, e2, if_true, Bool.false_eq_true, if_false]
+    refine ⟨by simpa using h1, h2, by simp, fee, h3, hfee', h4, h5, ?_, ([], cnt, 0), ?_, rfl⟩
+    · rw [sum_len_empty]; simp
+    · rw [List.length_map]; exact hc1
 
-/-- aspect `inst` of the tiered Merkle kind when every gate passes -/
-theorem t_inst_merkle_ok {now : Nat} {funds : List Coin} {limit : Nat} {whale : Option Nat} {admins : List Addr} {mu : Bool}
-    {stages : List Stage} {members : List (List (Addr × Nat))} {roots : List Nat} (W : Tiered.World) (a : Addr)
+/-- aspect `instantiate` of the tiered Merkle kind when every gate passes -/
+theorem t_instantiate_merkle_ok {now : Nat} {funds : List Coin} {limit : Nat} {whale : Option Nat} {admins : List Addr}
+    {mu : Bool} {stages : List Stage} {members : List (List (Addr × Nat))} {roots : List Nat} {fee : Nat}
     (h2 : Tiered.validateStages .merkle now stages = true)
-    (h3 : mustPay funds NATIVE = .ok Gen.tiered_whitelist_merkletree_CREATION_FEE)
+    (h3 : mustPay funds NATIVE = .ok fee) (hfee : fee = Gen.tiered_whitelist_merkletree_CREATION_FEE)
     (h5 : admins.all Tiered.validAddr = true) :
-    Tiered.step .merkle W (.inst now a funds limit whale admins mu stages members roots false) =
-      .ok (some { stages := stages, members := [], counts := fun _ => 0, num := 0, limit := 0, whale := none,
-                  roots := roots, admins := admins, mutable := mu }) := by
-  simp only [Tiered.step, Tiered.instantiate, normStage_merkle, Tiered.ofBool, h2, h3, h5, bind, Except.bind, pure,
-    Except.pure, Except.map, Bool.not_false, if_true, beq_self_eq_true]
+    Tiered.instantiate .merkle now funds limit whale admins mu stages members roots false =
+      .ok { stages := stages, members := [], counts := fun _ => 0, num := 0, limit := 0, whale := none,
+            roots := roots, admins := admins, mutable := mu } := by
+  have hfee' : (fee == Gen.tiered_whitelist_merkletree_CREATION_FEE) = true := by rw [hfee]; exact beq_self_eq_true _
+  simp only [Tiered.instantiate, normStage_merkle]
+  simp only [↓Tiered.ofBool_bind_ok, Tiered.bind_ok, Tiered.pure_ok]
+  exact ⟨by simp, fee, h3, hfee', h2, h5, trivial⟩
+
+/-- **instantiate, tiered kinds**: an accepted composite instantiate IS an accepted aspect `inst` (member lists emptied), whatever
+the aspect world was before, and the new contract projects onto the state it creates -/
+theorem inst_sim13 {s s' : State} {v : Variant} (ht : Tier v) {sender self : Addr} {funds : List Coin} {m : InstMsg}
+    (h : step s (.instantiate v sender funds self m) = .ok s') (W : Tiered.World) :
+    ∃ w, s'.wl = some w ∧ w.v = v ∧
+      Tiered.step v.kind13 W (tr13 s (.instantiate v sender funds self m)) = .ok (some (proj13 w)) := by
+  have hacc := accepted_of_ok h
+  simp only [step] at h
+  obtain ⟨b1, w, msgs, b2, hb1, hi, ha, rfl⟩ := instantiateTx_ok h
+  refine ⟨w, rfl, (instantiateWl_v hi).1, ?_⟩
+  simp only [tr13, hacc, if_true, Tiered.step]
+  cases hst : v.store with
+  | immutable => exact absurd hst ht.2
+  | list =>
+    simp only [instantiateWl, hst] at hi
+    obtain ⟨hlim, hg, hlen, hpay, _, _, htail⟩ := instListKind_ok hi
+    simp only [ht.1, if_true] at htail
+    obtain ⟨gs, num, _, _, rfl⟩ := htail
+    simp only [instGates, ht.1, if_true, Bool.and_eq_true, Bool.or_true, Bool.true_or] at hg
+    obtain ⟨⟨⟨_, hval⟩, _⟩, hwh⟩ := hg
+    have hk13 := kind13_list hst
+    have hne : v.kind13 ≠ .merkle := by rw [hk13]; cases v.flex <;> simp
+    have h1 : (m.memberLimit == 0 || decide (m.memberLimit > Tiered.maxMembers v.kind13)) = false := by
+      rw [maxMembers_eq hst ht.1]
+      cases hx : (m.memberLimit == 0 || decide (m.memberLimit > v.kind11.maxMembers)) with
+      | false => rfl
+      | true =>
+        exfalso; apply hlim
+        simp only [Bool.or_eq_true, beq_iff_eq, decide_eq_true_eq] at hx; exact hx
+    have h4 : (match (if v.kind13 == .flex then m.whaleCap else none) with
+        | some w => decide (w > m.memberLimit) | none => true) = true := by
+      rw [hk13]
+      cases hfx : v.flex with
+      | false => simp
+      | true =>
+        rw [hfx] at hwh
+        cases hwc : m.whaleCap with
+        | none => simp
+        | some c => rw [hwc] at hwh; simpa using hwh
+    obtain ⟨cnt, hc, hex⟩ := t_instantiate_list_ok hne (now := s.now) (funds := funds) (limit := m.memberLimit)
+      (fee := WlMembers.creationFee v.kind11 m.memberLimit) (whale := m.whaleCap) (admins := m.admins.map sh)
+      (mu := m.adminsMutable) (stages := m.stages) (m.roots.map rootNat) (!m.uriOk) h1 hval hpay
+      (by rw [price_eq hst ht.1]; rfl) h4 (all_valid_sh _)
+    rw [hex]
+    simp only [Except.map, Except.ok.injEq, Option.some.injEq]
+    apply state_ext <;> first | rfl | (intro j; exact hc j) | skip
+    · show (if v.kind13 == .flex then m.whaleCap else none) = WlMembers.effWhale v.kind11 m.whaleCap
+      rw [hk13]
+      obtain ⟨st, f, t⟩ := v
+      simp only at hst; subst hst
+      cases f <;> cases t <;> rfl
+  | merkle =>
+    simp only [instantiateWl, hst] at hi
+    obtain ⟨_, _, huri, hpay, hsch, _, _, hw⟩ := instMerkle_ok hi
+    simp only [ht.1, if_true] at hsch hw
+    subst hw
+    rw [kind13_merkle hst] at hsch ⊢
+    have hfee : v.merkleFee = Gen.tiered_whitelist_merkletree_CREATION_FEE := by simp [Variant.merkleFee, ht.1]
+    rw [huri]
+    simp only [Bool.not_true]
+    rw [t_instantiate_merkle_ok (fee := v.merkleFee) hsch hpay hfee (all_valid_sh _)]
+    rfl
+
+/-- what every op but `instantiate` does to the observed contract: it stays the same contract (address, crate) -/
+theorem step'_wl (s : State) (op : Op) (hni : ∀ v sender funds self m, op ≠ .instantiate v sender funds self m) :
+    (s.wl = none → (step' s op).wl = none) ∧
+    (∀ w, s.wl = some w → ∃ w', (step' s op).wl = some w' ∧ w'.v = w.v ∧ w'.self = w.self) := by
+  rcases step'_cases s op with ⟨s', hok, hs'⟩ | ⟨_, hs'⟩
+  · rw [hs']
+    cases op with
+    | setTime t => simp only [step, Except.ok.injEq] at hok; subst hok; exact ⟨fun h => h, fun w h => ⟨w, h, rfl, rfl⟩⟩
+    | fund a c => simp only [step, Except.ok.injEq] at hok; subst hok; exact ⟨fun h => h, fun w h => ⟨w, h, rfl, rfl⟩⟩
+    | instantiate v sender funds self m => exact absurd rfl (hni v sender funds self m)
+    | exec sender funds m =>
+      simp only [step] at hok
+      obtain ⟨w0, b1, w1, msgs, b2, hw0, _, hh, _, rfl⟩ := execute_ok hok
+      refine ⟨fun h => (by rw [h] at hw0; cases hw0), fun w h => ?_⟩
+      rw [hw0] at h; cases h
+      exact ⟨w1, rfl, (handle_frame hh).2.1, (handle_frame hh).1⟩
+  · rw [hs']; exact ⟨fun h => h, fun w h => ⟨w, h, rfl, rfl⟩⟩
+
+theorem step'_now (s : State) (op : Op) : (step' s op).now = (match op with | .setTime t => t | _ => s.now) := by
+  rcases step'_cases s op with ⟨s', hok, hs'⟩ | ⟨_, hs'⟩
+  · rw [hs']
+    cases op with
+    | setTime t => simp only [step, Except.ok.injEq] at hok; subst hok; rfl
+    | fund a c => simp only [step, Except.ok.injEq] at hok; subst hok; rfl
+    | instantiate v sender funds self m =>
+      simp only [step] at hok; obtain ⟨_, _, _, _, _, _, _, rfl⟩ := instantiateTx_ok hok; rfl
+    | exec sender funds m =>
+      simp only [step] at hok; obtain ⟨_, _, _, _, _, _, _, _, _, rfl⟩ := execute_ok hok; rfl
+  · rw [hs']
+    cases op with
+    | setTime t => rename_i h; obtain ⟨e, he⟩ := h; simp [step] at he
+    | _ => rfl
+
 
 end LP.WF
